@@ -45,14 +45,35 @@ func (c *Ctx) InstallReachingIn(root *ast.BlockStmt) (undo func()) {
 		}
 		return root
 	}
-	inLoopOrLit := func() bool {
-		for _, n := range stack {
-			switch n.(type) {
-			case *ast.ForStmt, *ast.RangeStmt, *ast.FuncLit:
-				return true
+	// loops and function literals inside root: a definition reaches later uses in text order only
+	// if no back edge (or later call) can carry another value to them, i.e. when the assignment
+	// and the variable's declaration sit in the same innermost loop/literal
+	var regions []ast.Node
+	ast.Inspect(root, func(n ast.Node) bool {
+		switch n.(type) {
+		case *ast.ForStmt, *ast.RangeStmt, *ast.FuncLit:
+			regions = append(regions, n)
+		}
+		return true
+	})
+	regionOf := func(p token.Pos) ast.Node {
+		var best ast.Node
+		for _, r := range regions {
+			if r.Pos() <= p && p < r.End() {
+				if best == nil || (best.Pos() <= r.Pos() && r.End() <= best.End()) {
+					best = r
+				}
 			}
 		}
-		return false
+		return best
+	}
+	inLoopOrLit := func(o types.Object, at token.Pos) bool {
+		declPos := o.Pos()
+		if declPos < root.Pos() || declPos >= root.End() {
+			// declared outside root (a parameter or captured variable): any loop matters
+			return regionOf(at) != nil
+		}
+		return regionOf(at) != regionOf(declPos)
 	}
 	ast.Inspect(root, func(n ast.Node) bool {
 		if n == nil {
@@ -70,7 +91,7 @@ func (c *Ctx) InstallReachingIn(root *ast.BlockStmt) (undo func()) {
 				if o == nil {
 					continue
 				}
-				if inLoopOrLit() {
+				if inLoopOrLit(o, s.Pos()) {
 					tainted[o] = true
 					continue
 				}
@@ -144,7 +165,7 @@ func (c *Ctx) InstallReachingIn(root *ast.BlockStmt) (undo func()) {
 					continue
 				}
 				switch {
-				case inLoopOrLit():
+				case inLoopOrLit(o, s.Pos()):
 					tainted[o] = true
 				case len(s.Values) == len(s.Names):
 					rhs := s.Values[i]
